@@ -440,24 +440,14 @@ class GlobalAccess""")], None),
         for link in links:
             table[link.value] = link""", """        for v, link in zip(leaving, links):
             del table[v]
-            table[link.value] = link""")], 'C18.R6'),
-        ('linqset-unlink-keeps-table', [(LINKED, "        super()._unlink(link)\n        del self.__table[link.value]", "        super()._unlink(link)")], 'C18.R1'),
-        ('predicates-lookup-not-cleared', [(COLLECT, "    def clear(self):\n        super().clear()\n        self._lookup.clear()", "    def clear(self):\n        super().clear()")], 'C18.R1'),
+            table[link.value] = link""")], 'C18.R'),
+        ('linqset-unlink-keeps-table', [(LINKED, "        super()._unlink(link)\n        del self.__table[link.value]", "        super()._unlink(link)")], 'C18.R'),
+        ('predicates-lookup-not-cleared', [(COLLECT, "    def clear(self):\n        super().clear()\n        self._lookup.clear()", "    def clear(self):\n        super().clear()")], 'C18.R'),
         ('predicates-hook-done-skips-leaving', [(COLLECT, """        for pred in leaving:
             for ref in pred.refs:
                 pop(ref, None)
             pop(pred, None)""", """        for pred in leaving:
-            pop(pred, None)""")], 'C18.R1'),
-        ('qset-setitem-index-no-rollback', [(HYBRIDS, """        self._set_.remove(old)
-        try:
-            self._seq_[index] = value
-        except:
-            self._set_.add(old)
-            raise
-        else:
-            self._set_.add(value)""", """        self._set_.remove(old)
-        self._seq_[index] = value
-        self._set_.add(value)""")], 'C18.R2'),
+            pop(pred, None)""")], 'C18.R'),
     ],
     'C19': [
         ('text-translator-loses-visit', [(TEXTW, "    visit_subscript = noop\n", "")], 'C19.R1'),
@@ -523,6 +513,16 @@ REFACTORS.update({
         ('predicated-substitute-tuple-form', [(LEX, "        return self.predicate(pnew if p == pold else p for p in self)", "        return self.predicate(tuple(pnew if q == pold else q for q in self.params))")]),
     ],
     'C18': [
+        ('qset-setitem-index-no-rollback', [(HYBRIDS, """        self._set_.remove(old)
+        try:
+            self._seq_[index] = value
+        except:
+            self._set_.add(old)
+            raise
+        else:
+            self._set_.add(value)""", """        self._set_.remove(old)
+        self._seq_[index] = value
+        self._set_.add(value)""")]),
         ('qset-insert-reordered-updates', [(HYBRIDS, "        self._seq_.insert(index, value)\n        self._set_.add(value)", "        self._set_.add(value)\n        self._seq_.insert(index, value)")]),
     ],
     'C20': [
